@@ -21,6 +21,7 @@ LOADCFG = [
     ("misc+disallowed", ["filter 0 19 0", "flags 0 1"]),
     ("default", []),
     ("structure+misc", ["filter 0 -1 2", "filter 0 19 0"]),
+    ("nostores", ["filter 0 19 0", "flags 0 896"]),          # NO_DISTANCES | NO_MEMATTRS | NO_CPUKINDS: only what the application adds itself exists
     ("keepall+disallowed", ["filter 0 -1 0", "flags 0 1"]),
 ]
 
@@ -268,13 +269,20 @@ def run_generic(ctx, two_slots, replay=None):
         sims = list(vlib.tlc_printed(out, "SIM"))
         nsim = 600 if thorough else 60
         hists += sims if len(sims) <= nsim else rng.sample(sims, nsim)
-        cfgs = LOADCFG if thorough else LOADCFG[:3]
+        cfgs = LOADCFG if thorough else LOADCFG[:4]
         for k, h in enumerate(hists):
             cname, clines = cfgs[k % len(cfgs)] if not thorough else cfgs[rng.randrange(len(cfgs))]
             # every other behaviour also queries the stores (distances, memory attributes, CPU kinds) after each call: the queries refresh cached
             # state inside the library, so both regimes are run; with them the dup relation compares the stores of both copies too
             lines = ["reset 2", "option xmldigest 1"] + (["option stores 1"] if k % 2 else []) + ["init 0", "synthetic 0 " + desc] + clines + ["load 0"] + render(h, info[name], choices)
             behs.append("\n".join(lines) + "\n")
+            # a call that fills a store followed by a restrict or a dup is also run on a topology loaded with the NO_* flags (where only
+            # application-added structures exist), with the stores queried after every call
+            names = [x[0] for x in h]
+            fill = [i for i, n in enumerate(names) if n in ("dist_add", "memattr", "cpukind")]
+            if cname != "nostores" and fill and any(n in ("restrict", "dup") for n in names[fill[0] + 1:]) and (thorough or len(h) <= 3):
+                lines = ["reset 2", "option xmldigest 1", "option stores 1", "init 0", "synthetic 0 " + desc] + dict(LOADCFG)["nostores"] + ["load 0"] + render(h, info[name], choices)
+                behs.append("\n".join(lines) + "\n")
     ctx.samples = [behs[0], behs[len(behs) // 2], behs[-1]]
     bf = ctx.path("behaviours.txt")
     open(bf, "w").write("".join(behs))
